@@ -33,6 +33,35 @@ fn cfg(c: &Case) -> GenCfg {
     g
 }
 
+/// The generated program; one case in four ends in a segment whose last byte lies at $FFFF (interrupt vectors: the
+/// exclusive end of what it emits is $10000, one more than an address can be).
+fn built(c: &Case) -> crate::gen::build::Built {
+    use crate::gen::ast::{DataSize, Expr, Stmt};
+    let mut b = build(&c.entropy, &cfg(c));
+    let h = c.entropy.iter().fold(0u32, |a, s| a.rotate_left(7) ^ s);
+    // (only where the program spells its segments out: without definitions it relies on the implicit default segment)
+    let defines = b.prog.main().iter().any(|s| matches!(s, Stmt::DefineSegment { .. }));
+    if h % 3 == 0 && defines {
+        let n = 1 + ((h >> 8) % 6) as i64;
+        let mut body = vec![];
+        let mut left = n;
+        while left > 0 {
+            if left >= 2 && (h >> (left as u32)) & 1 == 0 {
+                body.push(Stmt::Data { size: DataSize::Word, vals: vec![Expr::hex(0xc000 + left)] });
+                left -= 2;
+            } else {
+                body.push(Stmt::Data { size: DataSize::Byte, vals: vec![Expr::num(left)] });
+                left -= 1;
+            }
+        }
+        let entry = b.prog.entry.clone();
+        let main = b.prog.files.get_mut(&entry).unwrap();
+        main.push(Stmt::DefineSegment { name: "zvec".into(), start: Some(Expr::hex(0x10000 - n)), pc: None, write: None, bank: None });
+        main.push(Stmt::Segment { name: "zvec".into(), block: Some(body) });
+    }
+    b
+}
+
 #[derive(Clone, Debug)]
 struct Entry {
     file: String,
@@ -137,7 +166,7 @@ fn parse_listing(text: &str, n: usize) -> Result<Vec<Row>, String> {
 }
 
 pub fn prop(c: &Case, log: &mut CaseLog) -> Verdict {
-    let b = build(&c.entropy, &cfg(c));
+    let b = built(c);
     let (proj, rs) = if c.trivia.is_empty() {
         b.prog.render()
     } else {
@@ -145,6 +174,7 @@ pub fn prop(c: &Case, log: &mut CaseLog) -> Verdict {
         b.prog.render_with(&mut f)
     };
     log.label_if(!c.trivia.is_empty(), "free-layout");
+    log.label_if(b.prog.main().iter().any(|s| matches!(s, crate::gen::ast::Stmt::DefineSegment { name, .. } if name == "zvec")), "ends-at-top-of-memory");
     let text = proj.main_text().to_string();
     let opts = AsmOptions { move_macro: c.move_macro, ..AsmOptions::default() };
     let a = match guarded(|| assemble(&proj, opts)) {
@@ -359,7 +389,7 @@ pub fn prop(c: &Case, log: &mut CaseLog) -> Verdict {
 }
 
 pub fn to_json(c: &Case) -> serde_json::Value {
-    let b = build(&c.entropy, &cfg(c));
+    let b = built(c);
     json!({"entropy": c.entropy, "bytes_per_line": c.bytes_per_line, "move_macro": c.move_macro, "features": c.features, "trivia": c.trivia, "program": b.prog.text()})
 }
 
